@@ -5,6 +5,7 @@ import SmppVerif.Model.Keeper
 import SmppVerif.Model.Supervisor
 import SmppVerif.Model.Receiver
 import SmppVerif.Model.Sender
+import SmppVerif.Model.Discipline
 import SmppVerif.Model.DriverPdu
 
 namespace SmppVerif.DriverSession
@@ -34,8 +35,31 @@ def showEv : Supervisor.Ev → String
   | .unbind t => s!"unbind@{t}"
   | .returned t => s!"returned@{t}"
 
+def parseDEv (w : String) : Option Discipline.Ev :=
+  let r := (w.drop 1).toString
+  match w.front with
+  | 'C' => r.toNat?.map .connect
+  | 'B' => r.toNat?.map .bound
+  | 'A' => (parseHex r).map .announce
+  | 'R' => (parseHex r).map .recv
+  | 'D' => (parseHex r).map .recvDone
+  | 'W' => match r.splitOn ":" with
+    | [c, h] => match c.toNat?, parseHex h with | some c, some b => some (.write c b) | _, _ => none
+    | _ => none
+  | 'F' => match r.splitOn ":" with
+    | [c, h] => match c.toNat?, parseHex h with | some c, some b => some (.fed c b) | _, _ => none
+    | _ => none
+  | _ => none
+
 def step (ws : List String) : Option String :=
   match ws with
+  | "mon" :: bc :: evs =>
+    match bc.toNat?, evs.mapM parseDEv with
+    | some bc, some evs =>
+      some (match Discipline.firstReject { bindCmd := bc } 0 evs with
+        | none => "accept"
+        | some i => s!"reject {i}")
+    | _, _ => some "bad-op"
   | "tx" :: dflt :: ref :: seq :: "submit" :: rest =>
     match DriverPdu.parseEnc dflt, ref.toNat?, seq.toInt?, DriverPdu.parseSm rest with
     | some d, some ref, some seq, some m =>
